@@ -152,3 +152,57 @@ Proof.
   split; [reflexivity|]. split; [vm_compute; reflexivity|]. split; [vm_compute; reflexivity|].
   split; [|vm_compute; reflexivity]. eexists. split; vm_compute; reflexivity.
 Qed.
+
+(** ---- [audit A] the GENERAL theorems (not the on-block compositions): all hypotheses discharged together at the example
+    block - fuel bounds, the visitor call cap, and "the model's run does not end in Hang / Runaway" ---- *)
+Example C10_visitMemRegions_is_translation_nonvacuous :
+  go_multiboot_VisitMemRegions mld mst 100 (mkw [] ex_mem) (l_info ex_layout) (vis_oracle (fun _ _ => true) 0) =
+    match visit_mem_regions 10 (fun _ _ => true) ex_mem (l_info ex_layout) with
+    | (m', rs, Ok _) => GOk (mkw (rev (map ev_region rs) ++ []) m', tt)
+    | _ => GPanic
+    end /\
+  (match visit_mem_regions 10 (fun _ _ => true) ex_mem (l_info ex_layout) with (_, rs, Ok _) => length rs = 4%nat | _ => False end).
+Proof.
+  split.
+  - apply (C10_visitMemRegions_is_translation 100 10 (fun _ _ => true) [] ex_mem (l_info ex_layout) C10_trans_mem_bytes_nonvacuous).
+    + apply PeanoNat.Nat.leb_le. vm_compute. reflexivity.
+    + apply PeanoNat.Nat.ltb_lt. vm_compute. reflexivity.
+    + vm_compute. discriminate.
+    + vm_compute. discriminate.
+  - vm_compute. reflexivity.
+Qed.
+
+Example C10_visitElfSections_is_translation_nonvacuous :
+  go_multiboot_VisitElfSections mld (N.to_nat 65536) (mkw [] ex_mem) (l_info ex_layout) =
+    match visit_elf_sections ex_mem (l_info ex_layout) with
+    | (rs, Ok _) => GOk (mkw (rev (map ev_section rs) ++ []) ex_mem, tt)
+    | _ => GPanic
+    end /\
+  (match visit_elf_sections ex_mem (l_info ex_layout) with (rs, Ok _) => length rs = 2%nat | _ => False end).
+Proof.
+  split.
+  - apply (C10_visitElfSections_is_translation (N.to_nat 65536) [] ex_mem (l_info ex_layout) C10_trans_mem_bytes_nonvacuous).
+    + apply PeanoNat.Nat.leb_le. vm_compute. reflexivity.
+    + apply PeanoNat.Nat.leb_le. vm_compute. reflexivity.
+    + rewrite N2Nat.id. discriminate.
+    + vm_compute. discriminate.
+    + vm_compute. discriminate.
+  - vm_compute. reflexivity.
+Qed.
+
+Example C10_read_fb_uses_rgbColorInfo_nonvacuous :
+  go_multiboot_FramebufferInfo_RGBColorInfo mld (mkw [] ex_mem) (l_info ex_layout + 0xe0) =
+    GOk (mkw [] ex_mem, padd (l_info ex_layout + 0xe0) mb_off_FramebufferInfo_colorInfo) /\
+  rd_each ex_mem (padd (l_info ex_layout + 0xe0) mb_off_FramebufferInfo_colorInfo) rgb_offsets = Ok [16; 8; 8; 8; 0; 8].
+Proof.
+  assert (Hr : read_fb ex_mem (l_info ex_layout + 0xe0) = Ok (mkFb 0xfd000000 4096 1024 768 32 1 (Some [16; 8; 8; 8; 0; 8])))
+    by (vm_compute; reflexivity).
+  exact (C10_read_fb_uses_rgbColorInfo [] ex_mem (l_info ex_layout + 0xe0) _ C10_trans_mem_bytes_nonvacuous Hr).
+Qed.
+
+Example C10_trans_store_keeps_bytes_nonvacuous :
+  exists m', mst ex_mem 4 (l_info ex_layout) 7 = Some m' /\ mem_bytes m'.
+Proof.
+  destruct (mst ex_mem 4 (l_info ex_layout) 7) as [m'|] eqn:E; [|vm_compute in E; discriminate].
+  exists m'. split; [reflexivity|]. exact (C10_trans_store_keeps_bytes ex_mem 4 (l_info ex_layout) 7 m' C10_trans_mem_bytes_nonvacuous E).
+Qed.
